@@ -1198,6 +1198,7 @@ pub const BUGS: &[&str] = &[
     "link-to-tilemap",
     "many-palette-packets",
     "chunk-size-boundary",
+    "tags-in-later-frame",
 ];
 
 fn ensure_tilemap(s: &mut SpriteSpec, r: &mut Rng) -> usize {
@@ -2240,6 +2241,12 @@ pub fn apply_bug(s: &mut SpriteSpec, bug: &str, r: &mut Rng, scale: usize) -> St
             format!("{} legacy palette packets with skip {}", n, skip)
         }
         "chunk-size-boundary" => "one chunk padded to a boundary payload size (applied on bytes)".into(),
+        "tags-in-later-frame" => {
+            if s.durations.len() < 2 {
+                s.durations.push(100);
+            }
+            "a tags chunk (0..3 tags) followed by user data in a frame other than the first (applied on bytes)".into()
+        }
         "dangling-user-data" => {
             // user data in a file with no preceding attachable entity
             s.layers[0].ud = None;
@@ -2301,6 +2308,44 @@ pub fn encode_with_bug(s: &SpriteSpec, opts: &EncOpts, bug: Option<&str>, r: &mu
                     let total = bytes.len() as u32;
                     crate::format::put32(&mut bytes, 0, total);
                 }
+            }
+        }
+        "tags-in-later-frame" => {
+            // other editors and hand-written exporters put tags chunks anywhere; the count may be 0
+            if m.frames.len() >= 2 {
+                let fi = 1 + r.usize_below(m.frames.len() - 1);
+                let ntags = r.below(4) as u16;
+                let mut ins = Vec::new();
+                let mut body = Vec::new();
+                body.extend_from_slice(&ntags.to_le_bytes());
+                body.extend_from_slice(&[0u8; 8]);
+                for _ in 0..ntags {
+                    body.extend_from_slice(&[0, 0, 0, 0, 0, 0, 0]);
+                    body.extend_from_slice(&[0u8; 6]);
+                    body.extend_from_slice(&[1, 2, 3, 0]);
+                    body.extend_from_slice(&1u16.to_le_bytes());
+                    body.push(b't');
+                }
+                ins.extend_from_slice(&((6 + body.len()) as u32).to_le_bytes());
+                ins.extend_from_slice(&0x2018u16.to_le_bytes());
+                ins.extend_from_slice(&body);
+                let nud = r.below(4) as u32;
+                for _ in 0..nud {
+                    ins.extend_from_slice(&13u32.to_le_bytes());
+                    ins.extend_from_slice(&0x2020u16.to_le_bytes());
+                    ins.extend_from_slice(&1u32.to_le_bytes());
+                    ins.extend_from_slice(&1u16.to_le_bytes());
+                    ins.push(b'u');
+                }
+                // position: start, middle or end of that frame's chunk list
+                let in_frame: Vec<&crate::format::ChunkInfo> = m.chunks.iter().filter(|c| c.frame == fi).collect();
+                let at = if in_frame.is_empty() || r.chance(1, 3) {
+                    m.frames[fi].1
+                } else {
+                    in_frame[r.usize_below(in_frame.len())].off
+                };
+                let at = at.max(m.frames[fi].0 + 16);
+                insert_chunks(&mut bytes, &m, at, &ins, 1 + nud);
             }
         }
         "tag-ud-overflow" | "dangling-user-data" => {
